@@ -291,3 +291,21 @@ M('alf_cluster_waveform_channels_l2', ['C14'], 'phylib/io/alf.py',
   "                channel_distance = np.sum(np.abs(\n                    self.model.channel_positions -\n                    self.model.channel_positions[channels[t]]) ** 2, axis=1)")
 M('alf_spike_depths_cluster_when_features', ['C14'], 'phylib/io/alf.py',
   "        if self.model.sparse_features is None:\n            spikes_depths = clusters_depths[spike_clusters]", "        if self.model.sparse_features is None or self.model.sparse_features.cols is None:\n            spikes_depths = clusters_depths[spike_clusters]")
+# ---- C10 -----------------------------------------------------------------------------------
+# (keeping None entries in save_metadata is observationally equivalent: csv writes None as '' and read_tsv drops '')
+M('save_metadata_merges_old', ['C10'], 'phylib/io/model.py',
+  "        save_metadata(\n            path, name, {c: v for c, v in values.items() if v is not None})",
+  "        old = load_metadata(path).get(name, {}) if path.exists() else {}\n        old.update({c: v for c, v in values.items() if v is not None})\n        save_metadata(path, name, old)")
+M('load_metadata_uncontained', ['C10'], 'phylib/io/model.py',
+  "            except Exception as e:\n                logger.warning(\"Error when reading %s: %s.\", filename.name, str(e))",
+  "            except (ValueError, KeyError) as e:\n                logger.warning(\"Error when reading %s: %s.\", filename.name, str(e))")
+M('cluster_info_not_excluded', ['C10'], 'phylib/io/model.py',
+  "            if filename.stem in excluded_names:\n                continue", "            if filename.name in excluded_names:\n                continue")
+M('save_clusters_wrong_file', ['C10'], 'phylib/io/model.py',
+  "        path = self._find_path('spike_clusters.npy', 'spikes.clusters.npy', multiple_ok=False)\n        logger.debug(\"Save spike clusters to `%s`.\", path)",
+  "        path = self.dir_path / 'spike_clusters.npy'\n        logger.debug(\"Save spike clusters to `%s`.\", path)")
+M('tsv_numbers_as_strings', ['C10', 'C18'], 'phylib/utils/_misc.py',
+  "            data.append({k: _try_make_number(v) for k, v in zip(field_names, row) if v != ''})",
+  "            data.append({k: (_try_make_number(v) if k == 'cluster_id' or '.' not in v else v) for k, v in zip(field_names, row) if v != ''})")
+M('subset_store_stale_ids', ['C10'], 'phylib/io/model.py',
+  "        np.save(path_spikes, spike_ids)\n", "        if not path_spikes.exists():\n            np.save(path_spikes, spike_ids)\n")
